@@ -1,4 +1,5 @@
 import FV.Proofs.Die
+import FV.Proofs.DieNet
 /-
   C01 — Die decomposition is an exact tiling of the die.
   Property theorems only (helper lemmas live in `FV/Proofs/Die.lean`).  All statements are over an arbitrary
@@ -474,6 +475,231 @@ theorem die_rejects_small_overlap (sqrt : α → α) (st : Option (α × α)) (d
     exact ⟨_, rfl⟩
 
 
+/-! ### 6. the constructor from its DOCUMENTS: source kinds, the `<w>x<h>` shorthand, the attached netlist
+
+`FV/Model/DieNet.lean`: `construct` = the caller's `Netlist(ndoc)` (C05 reader model: it installs the class-wide tolerance when
+none is defined) followed by `Die(stream, netlist)`: `parse_yaml_die` on a `str` / tree / other object, then
+`self._fixed = netlist.fixed_rectangles()` and the constructor body of sections 1–5.  The fixed rectangles are no longer an
+input of the model: they are computed from the netlist document. -/
+section documents
+open FV.DieNet
+
+/-- **the shorthand is the tree** — `Die("<w>x<h>")` is `Die({width: w, height: h})`: whenever the string splits at `x` into
+    two pieces `float()` accepts, the parse result (shape or `AssertionError`) is that of the two-key tree. -/
+theorem shorthand_is_tree (pf : List Char → Option α) (ry : String → Option (YV α)) (s : String) (a b : List Char) (w h : α)
+    (hs : splitX s.toList = [a, b]) (ha : pf a = some w) (hb : pf b = some h) :
+    parseYamlDie pf ry (.str s) = parseYamlDie pf ry (.tree (shortTree w h)) := by
+  unfold parseYamlDie stringDie
+  simp only [hs, ha, hb, parseDie_shortTree, zero_eq, Bool.and_eq_true, decide_eq_true_eq]
+  by_cases hc : 0 < w ∧ 0 < h
+  · simp only [hc, and_self, ↓reduceIte]
+  · simp only [hc, ↓reduceIte]
+
+/-- … and a string that is not of that form is whatever `read_yaml` makes of it (text layer), parsed as a tree; an open text
+    stream is read and parsed as a tree (never as the shorthand); an object of any other kind is rejected. -/
+theorem parse_sources (pf : List Char → Option α) (ry : String → Option (YV α)) :
+    (∀ s, stringDie pf s = none → ∀ t, ry s = some t → parseYamlDie pf ry (.str s) = parseYamlDie pf ry (.tree t)) ∧
+    (∀ s, stringDie pf s = none → ry s = none → parseYamlDie pf ry (.str s) = .error .text) ∧
+    (∀ t, parseYamlDie pf ry (.handle (some t)) = parseYamlDie pf ry (.tree t)) ∧
+    parseYamlDie pf ry (.handle none) = .error .text ∧
+    parseYamlDie pf ry .other = .error .assert := by
+  refine ⟨fun s hs t ht => ?_, fun s hs ht => ?_, fun t => rfl, rfl, rfl⟩
+  · unfold parseYamlDie; simp only [hs, ht]
+  · unfold parseYamlDie; simp only [hs, ht]
+
+/-- whatever the source kind, an accepted die document has positive sizes and regions accepted by `parseRect`. -/
+theorem parseYamlDie_sound (pf : List Char → Option α) (ry : String → Option (YV α)) (src : Src α) (inp : DieIn α)
+    (h : parseYamlDie pf ry src = .ok inp) :
+    0 < inp.W ∧ 0 < inp.H ∧ ∀ r ∈ inp.regions, parseRect (entryOf r) = .ok r := by
+  rcases parseYamlDie_ok pf ry src inp h with ⟨s, a, b, _, _, _, _, hW, hH, hr⟩ | ⟨t, _, hp⟩
+  · exact ⟨hW, hH, by rw [hr]; intro r hr'; cases hr'⟩
+  · obtain ⟨kv, _, _, _, hW, hH, hreg⟩ := parseDie_ok t inp hp
+    refine ⟨hW, hH, ?_⟩
+    rcases hreg with ⟨_, hnil⟩ | ⟨ys, _, _, hF⟩
+    · rw [hnil]; intro r hr'; cases hr'
+    · intro r hr'
+      obtain ⟨y, _, hy⟩ := forall2_mem_right hF r hr'
+      obtain ⟨rfl, _⟩ := parseRect_ok y r hy
+      exact hy
+
+/-- **construct_sound** — whenever `Die(stream, netlist)` returns (any source kind, with or without a netlist, any
+    admissible pick order, any tolerance history): the die document was accepted (`inp`), the tolerances in force are the
+    ones the netlist stage left (`st1`), the reported regions satisfy `Tiling`, specialised regions and blockages are the
+    document's entries unchanged, the fixed regions are exactly what the netlist stage computed, ground regions are proper
+    rectangles tagged ground. -/
+theorem construct_sound (pf : List Char → Option α) (ry : String → Option (YV α)) (sqrt : α → α) (tiny : α)
+    (stogOf : α → α → List (NL.NRect α) → List (NL.NRect α)) (st : Option (α × α)) (ndoc : Option (YVal α))
+    (src : Src α) (picks : Option (List IRect)) (out : DieOut α) (e : Eps α) (st' : α × α)
+    (h : construct pf ry sqrt tiny stogOf st ndoc src picks = .ok (out, e, st')) :
+    ∃ st1 fixed inp, PreOK sqrt tiny stogOf st ndoc st1 fixed ∧ parseYamlDie pf ry src = .ok inp ∧
+      e = (mkEps sqrt st1 inp.W inp.H).1 ∧ st' = (mkEps sqrt st1 inp.W inp.H).2 ∧
+      out.W = inp.W ∧ out.H = inp.H ∧
+      out.specialized = inp.regions.filter (fun r => r.region != KW_BLOCKAGE) ∧
+      out.blockages = inp.regions.filter (fun r => r.region == KW_BLOCKAGE) ∧
+      out.fixed = fixed ∧
+      (∀ g ∈ out.ground, g.region = KW_GROUND ∧ g.fixed = false ∧ g.hard = false ∧ 0 < g.w ∧ 0 < g.h) ∧
+      Tiling e out := by
+  obtain ⟨st1, fixed, inp, hpre, hp, hd⟩ := construct_ok pf ry sqrt tiny stogOf st ndoc src picks _ h
+  obtain ⟨he, hst, p, _, hcore⟩ := dieOfIn_ok sqrt st1 inp fixed picks out e st' hd
+  obtain ⟨_, hg, e1, e2, e3, e4, e5, hsc⟩ := dieCore_ok _ _ _ _ _ hcore
+  refine ⟨st1, fixed, inp, hpre, hp, he, hst, e1, e2, e3, e4, e5, ?_, ?_⟩
+  · intro g hgm
+    obtain ⟨pk, _, hmk⟩ := forall2_mem_right hg g hgm
+    obtain ⟨rfl, hw, hh⟩ := mkGround_ok _ _ _ _ hmk
+    exact ⟨rfl, rfl, rfl, hw, hh⟩
+  · obtain ⟨s1, s2, s3⟩ := (selfCheck_iff _ _ _ _).mp hsc
+    rw [he]
+    exact ⟨by rw [e1, e2]; exact s1, s2, by rw [e1, e2]; exact s3⟩
+
+/-- **the reported fixed regions are the netlist's fixed rectangles** — for a die built with a netlist document: the netlist
+    was accepted by the reader (`parseDoc`, `finish` under the tolerance in force `τ`), `τ` is the tolerance defined before or
+    else the netlist's own proposal, the die ran under `τ` and leaves it in force, and `fixed_regions` is, in document order,
+    every rectangle of every module whose entry says `fixed: true` and nothing else — each flagged fixed and hard, tagged
+    ground, of positive size.  Without a netlist there are no fixed regions. -/
+theorem construct_fixed_of_netlist (pf : List Char → Option α) (ry : String → Option (YV α)) (sqrt : α → α) (tiny : α)
+    (stogOf : α → α → List (NL.NRect α) → List (NL.NRect α)) (st : Option (α × α)) (ndoc : Option (YVal α))
+    (src : Src α) (picks : Option (List IRect)) (out : DieOut α) (e : Eps α) (st' : α × α)
+    (h : construct pf ry sqrt tiny stogOf st ndoc src picks = .ok (out, e, st')) :
+    (ndoc = none → out.fixed = []) ∧
+    (∀ nd, ndoc = some nd → ∃ ms es nl τ, NL.parseDoc nd = .ok (ms, es) ∧ epsAfterNetlist sqrt tiny st ms = some τ ∧
+      NL.finish (stogOf τ.1 τ.2) τ.2 ms es = .ok nl ∧ e.d = τ.1 ∧ e.a = τ.2 ∧ st' = τ ∧
+      out.fixed = ((ms.filter (·.fixed)).flatMap (·.rects)).map NL.NRect.toRect ∧
+      ∀ r ∈ out.fixed, r.fixed = true ∧ r.hard = true ∧ r.region = KW_GROUND ∧ 0 < r.w ∧ 0 < r.h ∧
+        ∃ m ∈ ms, m.fixed = true ∧ ∃ q ∈ m.rects, r = q.toRect) := by
+  obtain ⟨st1, fixed, inp, hpre, _, he, hst, _, _, _, _, hfx, _, _⟩ :=
+    construct_sound pf ry sqrt tiny stogOf st ndoc src picks out e st' h
+  constructor
+  · intro hn
+    rcases hpre with ⟨_, _, hf⟩ | ⟨nd, _, hnd, _⟩
+    · rw [hfx, hf]
+    · rw [hn] at hnd; cases hnd
+  · intro nd hnd
+    rcases hpre with ⟨hn, _, _⟩ | ⟨nd', l, hnd', hl, hst1, hf⟩
+    · rw [hn] at hnd; cases hnd
+    · rw [hnd] at hnd'
+      cases hnd'
+      obtain ⟨ms, es, hd, hτ, hfin, hlf⟩ := loadNetlist_ok sqrt tiny stogOf st nd l hl
+      refine ⟨ms, es, l.netlist, l.st, hd, hτ, hfin, ?_, ?_, ?_, ?_, ?_⟩
+      · rw [he, hst1]; rfl
+      · rw [he, hst1]; rfl
+      · rw [hst, hst1]; rfl
+      · rw [hfx, hf, hlf, fixedRects_eq hd]
+      · intro r hr
+        rw [hfx, hf, hlf] at hr
+        obtain ⟨a1, a2, a3, a4, a5, _, _, _, a9⟩ := fixedRects_ok hd r hr
+        exact ⟨a1, a2, a3, a4, a5, a9⟩
+
+/-- a netlist the reader rejects (or one that proposes no finite tolerance) never reaches the die: the failure is the
+    netlist's. -/
+theorem construct_netlist_rejected (pf : List Char → Option α) (ry : String → Option (YV α)) (sqrt : α → α) (tiny : α)
+    (stogOf : α → α → List (NL.NRect α) → List (NL.NRect α)) (st : Option (α × α)) (nd : YVal α) (src : Src α)
+    (picks : Option (List IRect)) (err : DieNet.Err) (h : loadNetlist sqrt tiny stogOf st nd = .error err) :
+    construct pf ry sqrt tiny stogOf st (some nd) src picks = .error err := by
+  unfold construct
+  simp only [h]
+
+/-- **construct_complete** — a valid description is never rejected, from the documents: if the netlist stage succeeded
+    (`PreOK`: no netlist, or a netlist the reader accepts, leaving the tolerance state `st1` and the fixed rectangles
+    `fixed` it computed), the die document is accepted in whatever form it was given, and the description — document regions
+    AND the netlist's fixed rectangles — is a `ValidDie` for the distance tolerance in force, then EVERY admissible pick
+    sequence makes the constructor return, with an exact tiling whose fixed regions are the netlist's. -/
+theorem construct_complete (pf : List Char → Option α) (ry : String → Option (YV α)) (sqrt : α → α) (tiny : α)
+    (stogOf : α → α → List (NL.NRect α) → List (NL.NRect α)) (st : Option (α × α)) (ndoc : Option (YVal α))
+    (src : Src α) (st1 : Option (α × α)) (fixed : List (Rect α)) (inp : DieIn α)
+    (hpre : PreOK sqrt tiny stogOf st ndoc st1 fixed) (hp : parseYamlDie pf ry src = .ok inp)
+    (hεd : 0 ≤ (mkEps sqrt st1 inp.W inp.H).1.d) (hεa : 0 ≤ (mkEps sqrt st1 inp.W inp.H).1.a)
+    (hv : ValidDie (mkEps sqrt st1 inp.W inp.H).1.d inp fixed) (picks : List IRect)
+    (hacc : coverAccept ((gridOf (mkEps sqrt st1 inp.W inp.H).1 inp fixed).2.length - 1)
+      ((gridOf (mkEps sqrt st1 inp.W inp.H).1 inp fixed).1.length - 1)
+      (occ (gridOf (mkEps sqrt st1 inp.W inp.H).1 inp fixed).1 (gridOf (mkEps sqrt st1 inp.W inp.H).1 inp fixed).2
+        (occRects inp fixed)) picks = true) :
+    ∃ out, construct pf ry sqrt tiny stogOf st ndoc src (some picks) =
+        .ok (out, (mkEps sqrt st1 inp.W inp.H).1, (mkEps sqrt st1 inp.W inp.H).2) ∧
+      ExactTiling out ∧ Tiling (mkEps sqrt st1 inp.W inp.H).1 out ∧ out.fixed = fixed := by
+  obtain ⟨hW, hH, _⟩ := parseYamlDie_sound pf ry src inp hp
+  have hd := mkEps_die_pos sqrt st1 inp.W inp.H hW hH
+  have hvi : ValidIn (mkEps sqrt st1 inp.W inp.H).1.d inp.W inp.H (occRects inp fixed) :=
+    ⟨hW, hH, hεd, hv.pos, hv.inside, hv.disjoint, hv.separatedX, hv.separatedY⟩
+  obtain ⟨out, hcore, e1, e2, _, _, _, _, hin, hpw, hsum⟩ :=
+    dieCore_complete (mkEps sqrt st1 inp.W inp.H).1 inp fixed hvi hεa hd picks hacc
+  have hfx := (dieCore_ok _ _ _ _ _ hcore).2.2.2.2.2.2.1
+  refine ⟨out, ?_, ⟨by rw [e1, e2]; exact hin, hpw, by rw [e1, e2]; exact hsum⟩, ?_, hfx⟩
+  · rw [construct_eq pf ry sqrt tiny stogOf st ndoc src (some picks) st1 fixed inp hpre hp, dieOfIn_some]
+    simp only [hcore]
+  · have hsc := (dieCore_ok _ _ _ _ _ hcore).2.2.2.2.2.2.2
+    obtain ⟨s1, s2, s3⟩ := (selfCheck_iff _ _ _ _).mp hsc
+    exact ⟨by rw [e1, e2]; exact s1, s2, by rw [e1, e2]; exact s3⟩
+
+/-- **construct_rejects** (a) — a region of the die document OR a fixed rectangle of the netlist leaving the die by more than
+    the die's distance tolerance makes `Die(stream, netlist)` fail, whatever picks are offered. -/
+theorem construct_rejects_outside (pf : List Char → Option α) (ry : String → Option (YV α)) (sqrt : α → α) (tiny : α)
+    (stogOf : α → α → List (NL.NRect α) → List (NL.NRect α)) (st : Option (α × α)) (ndoc : Option (YVal α))
+    (src : Src α) (st1 : Option (α × α)) (fixed : List (Rect α)) (inp : DieIn α)
+    (hpre : PreOK sqrt tiny stogOf st ndoc st1 fixed) (hp : parseYamlDie pf ry src = .ok inp)
+    (r : Rect α) (hr : r ∈ inp.regions ∨ r ∈ fixed)
+    (hout : r.xmin < -(mkEps sqrt st1 inp.W inp.H).1.die ∨ inp.W + (mkEps sqrt st1 inp.W inp.H).1.die < r.xmax ∨
+            r.ymin < -(mkEps sqrt st1 inp.W inp.H).1.die ∨ inp.H + (mkEps sqrt st1 inp.W inp.H).1.die < r.ymax)
+    (picks : Option (List IRect)) : ∃ err, construct pf ry sqrt tiny stogOf st ndoc src picks = .error err := by
+  rw [construct_eq pf ry sqrt tiny stogOf st ndoc src picks st1 fixed inp hpre hp]
+  cases hres : dieOfIn sqrt st1 inp fixed picks with
+  | error err => exact ⟨_, rfl⟩
+  | ok res =>
+    exfalso
+    obtain ⟨out, e, st'⟩ := res
+    obtain ⟨he, _, p, _, hcore⟩ := dieOfIn_ok sqrt st1 inp fixed picks out e st' hres
+    obtain ⟨_, _, e1, e2, e3, e4, e5, hsc⟩ := dieCore_ok _ _ _ _ _ hcore
+    obtain ⟨s1, _, _⟩ := (selfCheck_iff _ _ _ _).mp hsc
+    have hmem : r ∈ out.all := by
+      unfold DieOut.all
+      rw [e3, e4, e5]
+      exact mem_regions_all inp fixed out.ground r hr
+    obtain ⟨a1, a2, a3, a4⟩ := s1 r hmem
+    rcases hout with c | c | c | c <;> linarith
+
+/-- **construct_rejects** (b) — two input regions (document or netlist) whose common area exceeds the area tolerance in force
+    make `Die(stream, netlist)` fail, whatever picks are offered. -/
+theorem construct_rejects_overlap (pf : List Char → Option α) (ry : String → Option (YV α)) (sqrt : α → α) (tiny : α)
+    (stogOf : α → α → List (NL.NRect α) → List (NL.NRect α)) (st : Option (α × α)) (ndoc : Option (YVal α))
+    (src : Src α) (st1 : Option (α × α)) (fixed : List (Rect α)) (inp : DieIn α)
+    (hpre : PreOK sqrt tiny stogOf st ndoc st1 fixed) (hp : parseYamlDie pf ry src = .ok inp)
+    (i j : Nat) (hi : i < j) (hj : j < (occRects inp fixed).length)
+    (hov : (mkEps sqrt st1 inp.W inp.H).1.a < ((occRects inp fixed)[i]'(by omega)).areaOverlap ((occRects inp fixed)[j]))
+    (picks : Option (List IRect)) : ∃ err, construct pf ry sqrt tiny stogOf st ndoc src picks = .error err := by
+  rw [construct_eq pf ry sqrt tiny stogOf st ndoc src picks st1 fixed inp hpre hp]
+  cases hres : dieOfIn sqrt st1 inp fixed picks with
+  | error err => exact ⟨_, rfl⟩
+  | ok res =>
+    exfalso
+    obtain ⟨out, e, st'⟩ := res
+    obtain ⟨he, _, p, _, hcore⟩ := dieOfIn_ok sqrt st1 inp fixed picks out e st' hres
+    obtain ⟨_, _, e1, e2, e3, e4, e5, hsc⟩ := dieCore_ok _ _ _ _ _ hcore
+    obtain ⟨_, hpw, _⟩ := (selfCheck_iff _ _ _ _).mp hsc
+    unfold DieOut.all at hpw
+    rw [e3, e4, e5] at hpw
+    have hsub := List.Pairwise.sublist (occRects_sublist inp fixed out.ground) hpw
+    have := (List.pairwise_iff_getElem.mp hsub) i j (by omega) hj hi
+    exact absurd hov (not_lt.mpr this)
+
+/-- the constructor of sections 1–5 is the tree / rectangle-list instance of `construct`: `dieModel` on a document tree with
+    no netlist is `construct` on that tree. -/
+theorem construct_tree_no_netlist (pf : List Char → Option α) (ry : String → Option (YV α)) (sqrt : α → α) (tiny : α)
+    (stogOf : α → α → List (NL.NRect α) → List (NL.NRect α)) (st : Option (α × α)) (doc : YV α)
+    (picks : Option (List IRect)) :
+    construct pf ry sqrt tiny stogOf st none (.tree doc) picks =
+      match dieModel sqrt st doc [] picks with
+      | .error e => .error (Err.ofDie e)
+      | .ok r => .ok r := by
+  rw [dieModel_eq]
+  unfold construct parseYamlDie
+  dsimp only
+  cases parseDie doc with
+  | error e => rfl
+  | ok inp =>
+    dsimp only
+    cases dieOfIn sqrt st inp [] picks <;> rfl
+
+end documents
+
 /-! ### non-vacuity: the die of `tests/frame/die/test_die.py` (`die7` with its netlist), executed at `Rat` -/
 
 private def doc7 : YV ℚ := .map [("width", .num 10), ("height", .num 9),
@@ -524,6 +750,82 @@ example : ∃ picks out e st', dieModel (fun _ => (1 : ℚ)) none doc7 fixed7 (s
     rw [this] at hp; cases hp; rfl
   subst hinp
   exact ⟨picks, out, e, st', h, ht, e5, by rw [e4]; decide, by rw [e3]; decide, by rw [e1]; rfl⟩
+
+/-! ### applied witnesses for section 6: `die7` built from its two DOCUMENTS (die tree + netlist tree), and the shorthand -/
+section documents_examples
+open FV.DieNet
+
+/-- the netlist document of `tests/frame/die/test_die.py` (two fixed modules, one soft) plus a movable hard macro. -/
+private def nl7 : YVal ℚ := .map [(.str "Modules", .map [
+   (.str "M1", .map [(.str "fixed", .bool true), (.str "rectangles", .seq [.seq [.int 2, .int 7, .int 2, .int 2]])]),
+   (.str "H1", .map [(.str "hard", .bool true), (.str "rectangles", .seq [.seq [.int 5, .int 5, .int 2, .int 2]])]),
+   (.str "M2", .map [(.str "fixed", .bool true), (.str "rectangles", .seq [.seq [.int 8, .float (11/2), .int 2, .int 1]])]),
+   (.str "M3", .map [(.str "area", .int 10)])]), (.str "Nets", .seq [])]
+
+/-- the caller's `Netlist(nl7)` in a fresh process: accepted, proposes the distance tolerance `1e-15` (the dummy `sqrt` makes every module's `sqrt(area)` 1/1000; × 1e-12), and hands the die the rectangles of `M1` and `M2` — not the movable macro `H1`. -/
+theorem netlist7_loads : ∃ l, loadNetlist (fun _ => (1 : ℚ) / 1000) (1 / 1000000000000) (fun _ _ rs => rs) none nl7 = .ok l ∧
+    l.fixed = fixed7 ∧ l.st = (1 / 1000000000000000, 1 / 1000) :=
+  ⟨_, by with_unfolding_all rfl, by with_unfolding_all rfl, by with_unfolding_all rfl⟩
+
+/-- `construct_complete` + `construct_fixed_of_netlist` applied: `Die(doc7, Netlist(nl7))` returns for every admissible pick
+    order, tiles the die exactly, and its fixed regions are the two rectangles the netlist DOCUMENT marks `fixed: true`. -/
+example : ∃ picks out e st', construct (fun _ => none) (fun _ => none) (fun _ => (1 : ℚ) / 1000) (1 / 1000000000000)
+      (fun _ _ rs => rs) none (some nl7) (.tree doc7) (some picks) = .ok (out, e, st') ∧
+    ExactTiling out ∧ Tiling e out ∧ out.fixed = fixed7 ∧ st' = (1 / 1000000000000000, 1 / 1000) ∧
+    ∀ r ∈ out.fixed, r.fixed = true ∧ r.hard = true ∧ r.region = KW_GROUND := by
+  obtain ⟨l, hl, hf, hs⟩ := netlist7_loads
+  have hpre : PreOK (fun _ => (1 : ℚ) / 1000) (1 / 1000000000000) (fun _ _ rs => rs) none (some nl7) (some l.st) l.fixed :=
+    Or.inr ⟨nl7, l, rfl, hl, rfl, rfl⟩
+  have hp : parseYamlDie (fun _ => none) (fun _ => none) (.tree doc7) = .ok inp7 := by with_unfolding_all rfl
+  rw [hf, hs] at hpre
+  have hv : ValidDie (mkEps (fun _ => (1 : ℚ) / 1000) (some ((1 : ℚ) / 1000000000000000, 1 / 1000)) inp7.W inp7.H).1.d inp7 fixed7 := by
+    constructor
+    · decide +kernel
+    · decide +kernel
+    · decide +kernel
+    · unfold Die.Sep; decide +kernel
+    · unfold Die.Sep; decide +kernel
+  obtain ⟨picks, hacc⟩ := cover_exists
+    ((gridOf (mkEps (fun _ => (1 : ℚ) / 1000) (some ((1 : ℚ) / 1000000000000000, 1 / 1000)) inp7.W inp7.H).1 inp7 fixed7).2.length - 1)
+    ((gridOf (mkEps (fun _ => (1 : ℚ) / 1000) (some ((1 : ℚ) / 1000000000000000, 1 / 1000)) inp7.W inp7.H).1 inp7 fixed7).1.length - 1)
+    (occ (gridOf (mkEps (fun _ => (1 : ℚ) / 1000) (some ((1 : ℚ) / 1000000000000000, 1 / 1000)) inp7.W inp7.H).1 inp7 fixed7).1
+      (gridOf (mkEps (fun _ => (1 : ℚ) / 1000) (some ((1 : ℚ) / 1000000000000000, 1 / 1000)) inp7.W inp7.H).1 inp7 fixed7).2
+      (occRects inp7 fixed7))
+  obtain ⟨out, hc, h1, h2, h3⟩ := construct_complete (fun _ => none) (fun _ => none) (fun _ => (1 : ℚ) / 1000)
+    (1 / 1000000000000) (fun _ _ rs => rs) none (some nl7) (.tree doc7) _ fixed7 inp7 hpre hp
+    (by decide +kernel) (by decide +kernel) hv picks hacc
+  obtain ⟨_, hnet⟩ := construct_fixed_of_netlist _ _ _ _ _ _ _ _ _ out _ _ hc
+  obtain ⟨ms, es, nl, τ, _, _, _, _, _, _, _, hflags⟩ := hnet nl7 rfl
+  refine ⟨picks, out, _, _, hc, h1, h2, h3, rfl, fun r hr => ?_⟩
+  obtain ⟨a1, a2, a3, _⟩ := hflags r hr
+  exact ⟨a1, a2, a3⟩
+
+/-- a netlist the reader rejects (two overlapping rectangles in a fixed module) never reaches the die
+    (`construct_netlist_rejected`). -/
+private def nlBad : YVal ℚ := .map [(.str "Modules", .map [
+   (.str "M1", .map [(.str "fixed", .bool true),
+      (.str "rectangles", .seq [.seq [.int 2, .int 7, .int 2, .int 2], .seq [.int 3, .int 7, .int 2, .int 2]])])])]
+example (src : Src ℚ) (picks : Option (List IRect)) :
+    construct (fun _ => none) (fun _ => none) (fun _ => (1 : ℚ) / 1000) (1 / 1000000000000) (fun _ _ rs => rs) none
+      (some nlBad) src picks = .error .netlist :=
+  construct_netlist_rejected _ _ _ _ _ _ _ _ _ _ (by with_unfolding_all rfl)
+
+/-- `float()` on the three pieces used below. -/
+private def pfEx : List Char → Option ℚ := fun s =>
+  if s = "5.5".toList then some (11 / 2) else if s = "2".toList then some 2 else if s = "0".toList then some 0 else none
+
+/-- `shorthand_is_tree` applied: `Die("5.5x2")` is `Die({width: 5.5, height: 2})`, and `"0x2"` raises the `AssertionError` of
+    `string_die` (it does not fall through to `read_yaml`). -/
+example (ry : String → Option (YV ℚ)) : parseYamlDie pfEx ry (.str "5.5x2") = .ok { W := 11 / 2, H := 2, regions := [] } := by
+  rw [shorthand_is_tree pfEx ry "5.5x2" "5.5".toList "2".toList (11 / 2) 2 (by decide +kernel) (by decide +kernel) (by decide +kernel)]
+  with_unfolding_all rfl
+example (ry : String → Option (YV ℚ)) : parseYamlDie pfEx ry (.str "0x2") = .error .assert := by
+  rw [shorthand_is_tree pfEx ry "0x2" "0".toList "2".toList 0 2 (by decide +kernel) (by decide +kernel) (by decide +kernel)]
+  with_unfolding_all rfl
+/-- … while a string with three pieces, or one `float()` refuses, is handed to `read_yaml`. -/
+example : stringDie pfEx "5.5x2x0" = none ∧ stringDie pfEx "5.5xabc" = none := by decide +kernel
+
+end documents_examples
 
 private def docOv : YV ℚ := .map [("width", .num 10), ("height", .num 10),
   ("regions", .list [.list [.num 3, .num 3, .num 4, .num 4, .str "A"], .list [.num 5, .num 5, .num 4, .num 4, .str "B"]])]
